@@ -81,7 +81,7 @@ const char* status_name(nano::solver_status s)
 // =========================================================================================================
 struct acase_t : spec_t
 {
-    int                 solver{0}; // 0 lbfgs, 1 bfgs
+    int                 solver{0}; // 0 lbfgs, 1 bfgs, 2 bfgs with the documented `scaled` initialisation of the inverse Hessian
     std::vector<double> x0;
 
     template <class A>
@@ -99,7 +99,7 @@ rc::Gen<acase_t> gen_acase()
         []
         {
             acase_t c;
-            c.solver = *gen::range<int>(0, 1);
+            c.solver = *rc::gen::element(0, 0, 0, 1, 1, 2);
             gen_spec(c, 3.0, 30);
             const auto n  = static_cast<size_t>(c.n);
             const int  xs = *gen::range<int>(0, 9);
@@ -126,7 +126,7 @@ verdict_t check_solve(const acase_t& c, ctx_t& ctx)
     {
         return verdict_t::discard(why);
     }
-    if (c.solver < 0 || c.solver > 1 || c.x0.size() != static_cast<size_t>(c.n))
+    if (c.solver < 0 || c.solver > 2 || c.x0.size() != static_cast<size_t>(c.n))
     {
         return verdict_t::discard("malformed-case");
     }
@@ -141,6 +141,7 @@ verdict_t check_solve(const acase_t& c, ctx_t& ctx)
     constexpr double epsilon   = 1e-8;
     constexpr long   max_evals = 1500;
     const char*      id        = c.solver == 0 ? "lbfgs" : "bfgs";
+    const bool       scaled    = c.solver == 2;
 
     const auto           b = build(c);
     const quadratic_fn_t function(b);
@@ -156,7 +157,11 @@ verdict_t check_solve(const acase_t& c, ctx_t& ctx)
         }
         solver->parameter("solver::epsilon")   = epsilon;
         solver->parameter("solver::max_evals") = max_evals;
-        result                                 = solver->minimize(function, x0, nano::make_null_logger());
+        if (scaled)
+        {
+            solver->parameter("solver::quasi::initialization") = std::string("scaled");
+        }
+        result = solver->minimize(function, x0, nano::make_null_logger());
     }
     catch (const std::exception& e)
     {
@@ -165,7 +170,7 @@ verdict_t check_solve(const acase_t& c, ctx_t& ctx)
     const auto& state = *result;
     const auto  evals = function.fevals() + function.gevals();
 
-    ctx.label(id);
+    ctx.label(scaled ? "bfgs-scaled-initialization" : id);
     ctx.label(c.layout == 0 ? "spectrum:geometric" : c.layout == 1 ? "spectrum:clustered" : "spectrum:random");
     ctx.label_if(c.kappa == 1e3, "kappa=1e3");
     ctx.label_if(c.kappa == 1.0 || c.n == 1, "kappa=1");
